@@ -114,6 +114,10 @@ func wireName(ctor func() thrift.TStruct) string {
 }
 
 func cfgByName(name string) idl.Config {
+	return idl.ConfigByName(name)
+}
+
+func cfgByNameOld(name string) idl.Config {
 	c := idl.CoreConfig()
 	for _, flag := range strings.Split(name, "+") {
 		switch flag {
@@ -131,6 +135,8 @@ func cfgByName(name string) idl.Config {
 	}
 	return c
 }
+
+func normName(s string) string { return strings.ToLower(strings.ReplaceAll(s, "_", "")) }
 
 func protoFor(name string, tr thrift.TTransport) thrift.TProtocol {
 	return rig.TProtocolFactory(name).GetProtocol(tr)
@@ -195,13 +201,16 @@ func checkProgram(ps progSpec, bt batch) *progResult {
 	type pkgInfo struct {
 		pkg   *genreg.Package
 		names map[string]func() thrift.TStruct
+		// two services of one file may both have a method m: both emit a struct
+		// whose wire name is m_args, so wire names map to several Go types
+		multi map[string]map[string]func() thrift.TStruct // wire name -> Go type name -> ctor
 	}
 	var pkgs []*pkgInfo
 	for _, p := range genreg.Packages() {
 		if !strings.HasPrefix(p.ImportPath, prefix) {
 			continue
 		}
-		pi := &pkgInfo{pkg: p, names: map[string]func() thrift.TStruct{}}
+		pi := &pkgInfo{pkg: p, names: map[string]func() thrift.TStruct{}, multi: map[string]map[string]func() thrift.TStruct{}}
 		for goName, ctor := range p.Types {
 			n := wireName(ctor)
 			if n == "" {
@@ -209,6 +218,10 @@ func checkProgram(ps progSpec, bt batch) *progResult {
 				continue
 			}
 			pi.names[n] = ctor
+			if pi.multi[n] == nil {
+				pi.multi[n] = map[string]func() thrift.TStruct{}
+			}
+			pi.multi[n][goName] = ctor
 		}
 		pkgs = append(pkgs, pi)
 	}
@@ -250,14 +263,28 @@ func checkProgram(ps progSpec, bt batch) *progResult {
 		}
 		for _, svc := range f.Services() {
 			for _, m := range svc.Methods {
+				pick := func(wire string) func() thrift.TStruct {
+					cands := best.multi[wire]
+					if len(cands) == 1 {
+						for _, c := range cands {
+							return c
+						}
+					}
+					for goName, c := range cands {
+						if normName(goName) == normName(svc.Name+wire) {
+							return c
+						}
+					}
+					return nil
+				}
 				as := idl.ArgsStruct(m)
-				if c := best.names[as.Name]; c != nil {
+				if c := pick(as.Name); c != nil {
 					cases = append(cases, typeCase{as, f, c, "args"})
 				} else {
 					res.Unmapped = append(res.Unmapped, f.FileName()+": "+as.Name)
 				}
 				if rs := idl.ResultStruct(m); rs != nil {
-					if c := best.names[rs.Name]; c != nil {
+					if c := pick(rs.Name); c != nil {
 						cases = append(cases, typeCase{rs, f, c, "result"})
 					} else {
 						res.Unmapped = append(res.Unmapped, f.FileName()+": "+rs.Name)
